@@ -13,6 +13,9 @@ CLAIMS["C09"] = {"category": "proof", "technique": TECH + "; loop-free full-doma
 CLAIMS["C19"] = {"category": "proof", "technique": TECH + "; generated C of bytevector.stub regenerated with tools/chibi-ffi each run",
   "text": "C parts of the codec property: mini-float (f8/f16) encode/decode round trips and totality over their whole finite domains; every numeric bytevector accessor generated from lib/scheme/bytevector.stub reads/writes exactly [k,k+W) inside the bytevector or raises, for any fixnum index, set!-then-ref returns the value, nothing else is written (proved per accessor; bytevector length enumerated).",
   "note": "Boxing constructors and exception constructors are contract stubs. Not covered: base64, quoted-printable, URI, CSV, json.scm (Scheme); JSON C reader and UTF-16/32 transcoders not yet under contract (see evidence not_covered)."}
+CLAIMS["C04"] = {"category": "proof", "technique": TECH + "; representation lemmas full-domain, loop contract for sexp_bignum_hi; word arithmetic shape-enumerated against a 704-bit mathematical value",
+  "text": "Proved without bound: sexp_make_integer_from_lsint / _from_luint (all 2^128 inputs: exact value, canonical form), sexp_fixnum_to_bignum, sexp_number_type (total), sexp_bignum_hi (loop contract, any length). Bounded (operand shapes enumerated, words and signs symbolic): add_digits, sub_digits, bignum_add/sub, compare(_abs), fxadd, fxsub, fxmul, add_fixnum, normalize, copy_bignum, and the generic sexp_add / sexp_sub on every fixnum/bignum kind pair: exact mathematical value and canonical (fixnum iff it fits) result.",
+  "note": "Callers are checked against callee contracts (hi, copy_bignum, number_type, fxadd/fxsub stubs; each real body checked against the same contract in its own group). alloc_plain allocator. Word multiply as uninterpreted function in fxmul. Not decided: Karatsuba mul, division, expt, sqrt, gcd, text conversion, Scheme-level numeric procedures."}
 NOT_APPLICABLE = {
  "C03": "compiler-correctness statement over all programs; needs formal semantics of source and bytecode and a simulation proof over an unbounded AST heap - no per-function contract expresses it (local pieces are claimed under C01/C05)",
  "C07": "hygiene is invariance under renaming of whole programs; resolution spans eval.c and 250 lines of init-7.scm (Scheme); no single-call contract expresses it",
